@@ -16,33 +16,40 @@ DESIGN_REF = 'DESIGN.md section 6, C15'
 TECHNIQUE = ('Coq proof (exact rationals Qc, induction over call sequences) about an executable model of '
              'Spectrum.integrate/bin/ends/trim/crop/pad/append/resample + exact differential execution of the extracted '
              'model against lentil.radiometry.Spectrum on one live object per call sequence + a model-free Fraction oracle')
-LEVEL_TEXT = ('Theorems in coq/theories/Properties/C15.v over all rational spectra: trapezoid integrate is linear in the '
-              'values, additive at a sample point and equal to the integral of the piecewise-linear interpolant over the hull '
-              'of the selected samples; bins: one per centre, non-negative, exact for linear spectra, sum = integrate over the '
-              'span of the centres under power preservation; every sequence of crop/trim/pad/append/resample calls that '
-              'contains no refused resample leaves a positive strictly increasing grid with one value per wavelength, retained '
-              'samples unaltered; crop/trim keep exactly the specified samples. The executable model is extracted and compared '
-              'with lentil on every run (equality in the exact float regime).')
+LEVEL_TEXT = ('Theorems in coq/theories/Properties/C15.v over all rational spectra (every float is a rational): integrate is '
+              'linear in the values (trapezoid and scipy-Simpson, any bounds), trapezoid integrate is additive at a sample point '
+              'and equals the integral of the piecewise-linear interpolant (antiderivative spec, arbitrary bounds) when the '
+              'bounds are samples or lie beyond the grid; bins: one per centre, sum = integrate(min centre, max centre) under '
+              'power preservation, non-negative (trapezoid: any increasing centres; Simpson: uniformly sampled data, or any data '
+              'without power preservation), exact for a straight-line spectrum (trapezoid: any centres; Simpson: uniform '
+              'centres); by induction over call sequences: every sequence of crop/trim/pad/append/resample calls, accepted or '
+              'refused, without a resample refused for its grid leaves a positive strictly increasing grid with one value per '
+              'wavelength (with the proposed resample fix: every sequence), retained samples unaltered, crop = closed range, '
+              'trim = first..last above tolerance. The executable model is extracted and compared with lentil on every run.')
 LEVEL_NOTE = ('Trusted: Coq kernel, extraction, the harness; numpy/scipy primitives (np.interp, np.trapz, np.delete, np.linspace, '
-              'scipy simpson, broadcasting) are modelled and observed through the tie, not verified. Known findings: a resample '
-              'refused for a bad grid has already replaced the values; integrate (hence preserve_power) silently truncates the '
-              'range to the samples inside it; bin with integer-typed centres truncates the Simpson mid-points.')
+              'np.insert, broadcasting, scipy.integrate.simpson) are modelled and observed through the tie, not verified. '
+              'Refuted clauses (witness theorems + known findings): a resample refused for a bad grid has already replaced '
+              'the values (C15-resample-bad-grid, fix proposed); integrate - hence preserve_power - drops the partial '
+              'intervals when a bound lies between two samples (C15-integrate-truncates); bin with integer-typed centres '
+              'truncates the Simpson mid-points (C15-bin-integer-centres, pinned by two tests).')
 TRUSTED = ['Coq 8.16.1 kernel (coqc; coqchk in the thorough tier)',
            'extraction with ExtrOcamlBasic only; ocaml/driver.ml',
-           'harness/props/c15.py: case codec, Fraction oracle (trapezoid, interpolant integral, set predicates)',
+           'harness/props/c15.py: case codec, Fraction oracle (trapezoid, interpolant integral, set predicates), the probe '
+           'that selects which of the two modelled resample variants the tree carries',
            'numpy/scipy primitives are modelled from their documented behaviour and source (np.interp, np.trapz, np.delete, '
            'np.linspace, np.insert, broadcasting of <=, scipy.integrate.simpson 1.17) and observed through the tie']
-ASSUMPTIONS = ['1-d float wave/value arrays, waveunit nm, valueunit None; linear sampling with fill_value 0',
-               'exact regime for equality comparison: dyadic wavelengths with power-of-two gaps, small dyadic values; '
-               'Simpson and power-preserved bins are compared to 1e-12 (they divide by 6 / by the bin sum)',
-               'pad: sampling is "min" or a positive number',
+ASSUMPTIONS = ['1-d float wave/value arrays, waveunit nm, valueunit None; linear sampling with fill_value 0; float centres',
+               'exact regime for equality comparison: dyadic wavelengths, small dyadic values, interpolation only across '
+               'power-of-two gaps; everything else (Simpson, power-preserved bins, other gaps) is compared to 1e-12 and a call '
+               'sequence is no longer compared once it leaves the exact regime',
+               'pad: sampling is "min" or a positive number; method/ends/mode strings are the documented ones',
                'integrate/bin exactness is claimed over the hull of the samples inside the closed range '
                '(the code does not interpolate at the bounds: known finding C15-integrate-truncates)']
 RULE = ('corpus first, then random call sequences (length <= 8 quick / <= 25 thorough) on one Spectrum object mixing '
-        'accepted and refused crop/trim/pad/append/resample calls, integrate with bounds inside/outside/at samples and '
-        'linear-combination/additivity companions, bins with uniform and non-uniform centres, both ends, both rules, with '
-        'and without power preservation, ends(), sample(); non-trivial = the case has a non-uniform grid or a refused '
-        'call or at least three calls; distinct by case hash')
+        'accepted and refused crop/trim/pad/append/resample calls (state and exception class compared after every call), '
+        'integrate with bounds inside/outside/at samples plus linear-combination and additivity companions, bins with uniform, '
+        'non-uniform and shuffled centres, both ends, both rules, with and without power preservation, ends(), sample(); '
+        'non-trivial = non-uniform grid or at least three calls/samples; distinct by case hash')
 
 F = Fraction
 TOL = 1e-12
@@ -890,7 +897,7 @@ def oracle(c, impl):
         uni_c = len(d) == 1
         uni_w = len({y - x for x, y in zip(w, w[1:])}) <= 1
         nonneg = all(y >= 0 for y in v)
-        if finite and nonneg and inc and (c['rule'] == 'trapz' or not c['pp'] or (uni_c and uni_w)):
+        if finite and nonneg and inc and (c['rule'] == 'trapz' or not c['pp'] or uni_w):
             if any(x < -1e-15 for x in b):
                 return f'negative bin {min(b)!r} for a non-negative spectrum'
         # edges of the bins
